@@ -218,6 +218,45 @@ pub fn run(ctx: &Ctx) -> Report {
     rep.absorb(par_cases(&sp, |p, l| judge_src(&p.render(), "scope-parent-directed", None, &budgets, l)));
     let lb = c02::late_bool_progs();
     rep.absorb(par_cases(&lb, |p, l| judge_src(&p.render(), "late-boolean-directed", None, &budgets, l)));
+    // constants whose value comes from a file: flagged as statically known, yet not available before the first full pass
+    // when they are declared after their use
+    {
+        let rulesets = [
+            "    ld {v} => 0xeeee @ v`8\n    ld {v} => limit`8 @ v`8\n",
+            "    ld {v} => limit`8 @ v`8\n",
+            "    ld {v} => { assert(limit > 0x20), 0xee @ v`8 }\n    ld {v} => 0xdddd @ v`8\n",
+            "    ld {v} => 0xee @ v`8\n    ld {v} => { assert(limit == 0x10), 0xd @ v`4 }\n",
+        ];
+        let decls = [
+            "limit = incbin(\"f.bin\")\n",
+            "limit = incbinstr(\"b.txt\")\n",
+            "limit = inchexstr(\"h.txt\")\n",
+            "limit = incbin(\"f.bin\") + 0\n",
+            "limit = base\nbase = incbin(\"f.bin\")\n",
+            "base = incbin(\"f.bin\")\nlimit = base\n",
+            "limit = 0x10\n",
+        ];
+        let uses = ["ld 5\n", "ld 5\nl:\n#d8 l\n", "#d8 limit\n", "ld limit\n", "x = limit + 1\n#d8 x\n"];
+        let mut cases: Vec<String> = vec![];
+        for r in rulesets {
+            for d in decls {
+                for u in uses {
+                    let head = format!("#ruledef\n{{\n{}}}\n", r);
+                    cases.push(format!("{}{}{}", head, d, u));
+                    cases.push(format!("{}{}{}", head, u, d));
+                }
+            }
+        }
+        rep.absorb(par_cases(&cases, |src, l| {
+            let files = vec![
+                ("main.asm".to_string(), src.as_bytes().to_vec()),
+                ("f.bin".to_string(), vec![0x10u8]),
+                ("b.txt".to_string(), b"00010000".to_vec()),
+                ("h.txt".to_string(), b"10".to_vec()),
+            ];
+            judge_files(&files, "main.asm", &src.replace('\n', " / "), "file-valued-constant", None, &budgets, l);
+        }));
+    }
     // corpus
     let cases = corpus::load(&ctx.repo);
     rep.extra("corpus_files", json!(cases.len()));
